@@ -104,6 +104,93 @@ fn dispatch(name: &str, a: &[i64]) -> Option<Vec<i64>> {
             _ => {}
         }
     }
+    #[cfg(feature = "p_knuthplass")]
+    {
+        // kp_pass_<KINDS> amounts.. line_width tolerance line_penalty adj_demerits rs_w rs_st rs_sh rs_order
+        // KINDS over R (rule: w), G/F (glue finite/fil: w st sh), K/k (explicit/font kern: w), P (penalty: p)
+        if let Some(kinds) = name.strip_prefix("kp_pass_") {
+            use boxworks::ds;
+            struct NoFonts;
+            impl boxworks::FontRepo for NoFonts {
+                fn width(&self, _: char, _: u32) -> Option<common::Scaled> { None }
+                fn height(&self, _: char, _: u32) -> Option<common::Scaled> { None }
+                fn depth(&self, _: char, _: u32) -> Option<common::Scaled> { None }
+            }
+            struct NoHyph;
+            impl boxworks::Hyphenator for NoHyph {
+                fn hyphenate(&self, _: &mut Vec<ds::Horizontal>) {}
+            }
+            let sc = |x: i64| common::Scaled(x as i32);
+            let mut k = 0usize;
+            let mut list: Vec<ds::Horizontal> = vec![];
+            for c in kinds.chars() {
+                match c {
+                    'R' => {
+                        list.push(ds::Horizontal::Rule(ds::Rule { height: sc(0), width: sc(a[k]), depth: sc(0) }));
+                        k += 1;
+                    }
+                    'G' | 'F' => {
+                        let g = common::Glue {
+                            width: sc(a[k]),
+                            stretch: sc(a[k + 1]),
+                            stretch_order: if c == 'G' { common::GlueOrder::Normal } else { common::GlueOrder::Fil },
+                            shrink: sc(a[k + 2]),
+                            shrink_order: common::GlueOrder::Normal,
+                        };
+                        list.push(ds::Horizontal::Glue(ds::Glue { value: g, kind: ds::GlueKind::Normal }));
+                        k += 3;
+                    }
+                    'K' | 'k' => {
+                        let kind = if c == 'K' { ds::KernKind::Explicit } else { ds::KernKind::Normal };
+                        list.push(ds::Horizontal::Kern(ds::Kern { width: sc(a[k]), kind }));
+                        k += 1;
+                    }
+                    'P' => {
+                        list.push(ds::Horizontal::Penalty(ds::Penalty(a[k] as i32)));
+                        k += 1;
+                    }
+                    _ => return None,
+                }
+            }
+            let (lw, tol, line_penalty, adj) = (a[k], a[k + 1] as i32, a[k + 2] as i32, a[k + 3] as i32);
+            let rs = common::Glue {
+                width: sc(a[k + 4]),
+                stretch: sc(a[k + 5]),
+                stretch_order: order(a[k + 7]),
+                shrink: sc(a[k + 6]),
+                shrink_order: common::GlueOrder::Normal,
+            };
+            let params = boxworks_knuthplass::Params {
+                adj_demerits: adj,
+                broken_penalty: 0,
+                double_hyphen_demerits: 0,
+                club_penalty: 0,
+                emergency_stretch: sc(0),
+                ex_hyphen_penalty: 0,
+                final_hyphen_demerits: 0,
+                final_widow_penalty: 0,
+                hyphen_penalty: 0,
+                inter_line_penalty: 0,
+                left_skip: common::Glue::ZERO,
+                line_penalty,
+                looseness: 0,
+                par_fill_skip: common::Glue::ZERO,
+                pre_tolerance: 0,
+                right_skip: rs,
+                tolerance: tol,
+            };
+            let widths = [sc(lw)];
+            let mut lb = boxworks_knuthplass::LineBreaker {
+                params: &params,
+                line_widths: &widths,
+                line_indents: &[],
+                debug_logger: None,
+                hyphenator: &NoHyph,
+            };
+            let r = lb.break_line_single_attempt(&list, &NoFonts, tol, sc(0), false);
+            return Some(flat_opt(r, |v| v.into_iter().map(|x| x as i64).collect()));
+        }
+    }
     let _ = a;
     let _ = name;
     None
